@@ -674,7 +674,8 @@ R.contract(
 # handle_message: reassembly loop around the dispatcher.  Establishes the dispatcher's precondition (nothing is
 # dispatched before the ClientHello was sent) and shows that whatever bytes arrive, the class invariant H survives.
 R.module_names.add("int")  # only for the attribute form int.from_bytes (int(x) is a builtin of the engine)
-R.contract("int.from_bytes", returns="int", ensures=["result >= 0"], trusted=True, note="stdlib int.from_bytes (big endian, unsigned)")
+if "int.from_bytes" not in R.contracts:  # contracts/quic_codecs.py (C17) gives the exact big-endian value
+    R.contract("int.from_bytes", returns="int", ensures=["result >= 0"], trusted=True, note="stdlib int.from_bytes (big endian, unsigned)")
 R.field_types("Context", _receive_buffer="bytes")
 R.contract(
     "Context._client_send_hello",
